@@ -79,7 +79,7 @@ pub fn models(id: &str, tier: &str) -> Vec<HistoryModel> {
     }
     if quick {
         v.push(base(vec![WorldCfg::default()], 3, 2, vec![], false));
-        v.push(base(vec![alt_cfg()], 3, 1, vec!["S0", "S3", "S4", "S8", "S10"], false));
+        v.push(base(vec![alt_cfg()], 3, 1, vec!["S0", "S3", "S4", "S8", "S10", "S11"], false));
     } else {
         v.push(base(vec![WorldCfg::default()], 4, 3, vec![], true));
         // every commit-option combination
@@ -94,7 +94,7 @@ pub fn models(id: &str, tier: &str) -> Vec<HistoryModel> {
                 ..Default::default()
             });
         }
-        v.push(base(cfgs, 3, 1, vec!["S0", "S3", "S4", "S6", "S8", "S10"], false));
+        v.push(base(cfgs, 3, 1, vec!["S0", "S3", "S4", "S6", "S8", "S10", "S11"], false));
         // suites x providers, and provider mixes
         let mut cfgs = vec![];
         for (suite, provs) in [
@@ -122,6 +122,24 @@ pub fn models(id: &str, tier: &str) -> Vec<HistoryModel> {
             cfgs.push(WorldCfg { suite, providers: provs, ..Default::default() });
         }
         v.push(base(cfgs, 2, 1, vec!["S0", "S3", "S8"], false));
+    }
+    // eight-member trees (three levels below the root on both sides)
+    let big = |cfgs: Vec<WorldCfg>, dg: usize| HistoryModel {
+        cfgs,
+        mon: mon.clone(),
+        n_parties: 9,
+        depth_initial: dg,
+        depth_gallery: dg,
+        alphabet: alphabet.clone(),
+        seeds: vec!["S12", "S13"],
+        all_proposers: false,
+        max_deviations: 0,
+    };
+    if quick {
+        v.push(big(vec![WorldCfg::default()], 2));
+        v.push(big(vec![alt_cfg()], 1));
+    } else {
+        v.push(big(vec![WorldCfg::default(), alt_cfg()], 2));
     }
     // deviating rounds (K >= 1): a member races with a commit of its own and loses; the
     // committer gets its own commit back instead of applying it
@@ -156,7 +174,7 @@ pub fn deviation_models(id: &str, tier: &str) -> Vec<HistoryModel> {
 pub fn meta(id: &str, tier: &str) -> Meta {
     let ms = models(id, tier);
     let bounds = bounds_json(&[
-        ("identities", json!(5)),
+        ("identities", json!("5 (9 in the runs from the eight-member seeds S12, S13)")),
         (
             "runs",
             json!(ms
@@ -165,7 +183,7 @@ pub fn meta(id: &str, tier: &str) -> Meta {
                     "configs": m.cfgs.iter().map(|c| c.label()).collect::<Vec<_>>(),
                     "depth_from_initial_group": m.depth_initial,
                     "depth_from_gallery_seeds": m.depth_gallery,
-                    "seeds": if m.seeds.is_empty() { vec!["S0..S10"] } else { m.seeds.clone() },
+                    "seeds": if m.seeds.is_empty() { vec!["S0..S11"] } else { m.seeds.clone() },
                     "all_members_propose": m.all_proposers,
                     "deviation_bound_K": m.max_deviations,
                 }))
